@@ -18,6 +18,7 @@ EXPLANATION = (
     "a logical NEWLINE token (not at physical line breaks inside brackets), so every lambda of the bracketed expression is a candidate."
     " (R7) the token search looks for `def` only when the callable handed in is not a lambda (callable.__name__ != \"<lambda>\"), so a lambda on the line of a one-line def or after a decorator is not mistaken for the function; (R8) re-aligning the source of a def removes at most each line's own leading blanks."
     " (R4, as of round 10) one counter per bracket kind or one nesting depth, moved by *operator* tokens only (the literal part of an f-string can be exactly one bracket)."
+    " (R5, as of D46) a decorated def is refused, and the lambda made from a def has its parameters and defaults without the annotations."
 )
 NOT_DECIDED = "that the tokenizer heuristic finds the right lambda for every source layout, and that every documented layout is recovered without error (both quantify over source text fed to a line-number-keyed heuristic)."
 
